@@ -8,14 +8,15 @@
 From Coq Require Import ZArith NArith String List Bool.
 From Sidetree Require Import Base.Sha2 Json.Json Json.Jcs Sidetree.Protocol Sidetree.Hashing Sidetree.Parser Sidetree.Applier
      Json.JcsProps Json.JcsRoundTrip Sidetree.JequivDecode Sidetree.ClientCreate
-     Sidetree.Rules Sidetree.Validator Sidetree.ClientUpdate Sidetree.ClientDeactivateRecover Sidetree.Resolve Sidetree.Composer Sidetree.ClientApply.
+     Sidetree.Rules Sidetree.Validator Sidetree.ClientUpdate Sidetree.ClientDeactivateRecover Sidetree.Resolve Sidetree.Composer Sidetree.ClientApply Sidetree.ClientSimple Sidetree.ClientApplySigned.
 Import ListNotations.
 Open Scope string_scope.
 
 (* A create request built by NewCreateRequest from valid input is accepted by a parser configured
    with the matching protocol; the operation carries the suffix computed from the built suffix
    data under the first configured algorithm, the requested commitments, anchor origin and
-   patches (up to member order: the request travels as canonical bytes). *)
+   patches (up to member order: the request travels as canonical bytes).  [patches_valid]: every
+   patch, as the caller supplied it, is enabled by the protocol and passes patch validation. *)
 Theorem C08_create_built_accepted : forall cfg u n o t i bytes sd d a rest,
   build_create i = Some (bytes, sd, d) ->
   algs cfg = a :: rest -> (a = 18%N \/ a = 19%N) -> In (ci_code i) (algs cfg) ->
@@ -26,13 +27,13 @@ Theorem C08_create_built_accepted : forall cfg u n o t i bytes sd d a rest,
   (forall c, jcs (img_delta d) = Some c -> (Z.of_nat (String.length c) <= P_MaxDeltaSize cfg)%Z) ->
   Forall is_obj (ci_patches i) -> Forall wfnum (ci_patches i) -> wfnum (ci_origin i) ->
   (forall o', jequiv (ci_origin i) o' -> o o' = true) ->
-  (forall p p', In p (ci_patches i) -> jequiv p p' -> patch_enabled cfg p' = true /\ Validator.validate_patch u n p' = true) ->
+  patches_valid cfg u n (ci_patches i) ->
   exists p d',
     parse_operation cfg u n o t bytes false = Some p /\
     p_type p = "create" /\ calc_mh (img_suffix_data sd) a = Some (p_suffix p) /\
     p_delta p = Some d' /\ d_update_c d' = ci_update_c i /\ Forall2 jequiv (ci_patches i) (d_patches d') /\
     (exists sd', p_suffix_data p = Some sd' /\ sd_recovery_c sd' = ci_recovery_c i /\ jequiv (ci_origin i) (sd_origin sd')).
-Proof. exact create_built_accepted. Qed.
+Proof. exact create_built_accepted_simple. Qed.
 Print Assumptions C08_create_built_accepted.
 
 (* ... and applying it to the empty state yields what the caller asked for: commitments, anchor
@@ -47,14 +48,14 @@ Theorem C08_create_built_applies : forall cfg u n o i bytes sd d a rest t num ve
   (forall c, jcs (img_delta d) = Some c -> (Z.of_nat (String.length c) <= P_MaxDeltaSize cfg)%Z) ->
   Forall is_obj (ci_patches i) -> Forall wfnum (ci_patches i) -> wfnum (ci_origin i) ->
   (forall o', jequiv (ci_origin i) o' -> o o' = true) ->
-  (forall p p', In p (ci_patches i) -> jequiv p p' -> patch_enabled cfg p' = true /\ validate_patch u n p' = true) ->
+  patches_valid cfg u n (ci_patches i) ->
   exists rm ps',
     apply_bytes cfg u n TCreate bytes true t num ver canon equiv (empty_rm pub unpub) = Some rm /\
     Forall2 jequiv (ci_patches i) ps' /\
     rm_recovery_c rm = ci_recovery_c i /\ rm_update_c rm = ci_update_c i /\ jequiv (ci_origin i) (rm_origin rm) /\
     rm_deactivated rm = false /\ rm_created rm = t /\
     rm_doc rm = Some (match apply_patches [] ps' with Some doc => doc | None => [] end).
-Proof. exact create_built_applies. Qed.
+Proof. exact create_built_applies_simple. Qed.
 Print Assumptions C08_create_built_applies.
 
 Theorem C08_update_built_accepted : forall cfg u n o t i bytes d dh,
@@ -69,14 +70,41 @@ Theorem C08_update_built_accepted : forall cfg u n o t i bytes d dh,
   In (k_crv (ui_key i)) (P_KeyAlgorithms cfg) -> nonce_rule cfg (k_nonce (ui_key i)) ->
   t 0%Z (until_of cfg 0 0) = true ->
   Forall is_obj (ui_patches i) -> Forall wfnum (ui_patches i) ->
-  (forall p p', In p (ui_patches i) -> jequiv p p' -> patch_enabled cfg p' = true /\ validate_patch u n p' = true) ->
+  patches_valid cfg u n (ui_patches i) ->
   exists p d',
     parse_operation cfg u n o t bytes false = Some p /\
     p_type p = "update" /\ p_suffix p = ui_suffix i /\ p_reveal p = ui_reveal i /\
     p_delta p = Some d' /\ d_update_c d' = ui_update_c i /\ Forall2 jequiv (ui_patches i) (d_patches d') /\
-    p_time_args p = Some (0%Z, until_of cfg 0 0).
-Proof. exact update_built_accepted. Qed.
+    p_time_args p = Some (0%Z, until_of cfg 0 0) /\
+    parse_signed_update cfg (p_signed p) = Some {| su_key := Some (ui_key i); su_delta_hash := dh; su_from := 0; su_until := 0 |}.
+Proof. exact update_built_accepted_simple. Qed.
 Print Assumptions C08_update_built_accepted.
+
+(* ... and applying it to a state that has a document yields the requested next update commitment
+   and the document the composer makes of the requested patches from the current document (the
+   current document when the patch list fails: the degraded outcome); recovery commitment, anchor
+   origin and creation time are carried over.  The signature verdict is the oracle (true). *)
+Theorem C08_update_built_applies : forall cfg u n i bytes d dh rm doc t num ver canon equiv,
+  build_update i = Some (bytes, d, dh) ->
+  In (ui_code i) (algs cfg) ->
+  (Z.of_nat (String.length bytes) <= P_MaxOperationSize cfg)%Z ->
+  hash_rule cfg (ui_reveal i) -> key_matches_reveal (Some (ui_key i)) (ui_reveal i) = true ->
+  (Z.of_nat (String.length (ui_update_c i)) <= P_MaxOperationHashLength cfg)%Z -> mh_code (ui_update_c i) = Some (ui_code i) ->
+  (Z.of_nat (String.length dh) <= P_MaxOperationHashLength cfg)%Z ->
+  (forall c, jcs (img_delta d) = Some c -> (Z.of_nat (String.length c) <= P_MaxDeltaSize cfg)%Z) ->
+  In (ui_alg i) (P_SignatureAlgorithms cfg) ->
+  In (k_crv (ui_key i)) (P_KeyAlgorithms cfg) -> nonce_rule cfg (k_nonce (ui_key i)) ->
+  Forall is_obj (ui_patches i) -> Forall wfnum (ui_patches i) ->
+  patches_valid cfg u n (ui_patches i) ->
+  rm_doc rm = Some doc ->
+  exists rm' ps',
+    apply_bytes cfg u n TUpdate bytes true t num ver canon equiv rm = Some rm' /\
+    Forall2 jequiv (ui_patches i) ps' /\
+    rm_update_c rm' = ui_update_c i /\ rm_recovery_c rm' = rm_recovery_c rm /\ rm_deactivated rm' = false /\
+    rm_origin rm' = rm_origin rm /\ rm_created rm' = rm_created rm /\ rm_updated rm' = t /\
+    rm_doc rm' = Some (match apply_patches doc ps' with Some doc' => doc' | None => doc end).
+Proof. exact update_built_applies. Qed.
+Print Assumptions C08_update_built_applies.
 
 Theorem C08_deactivate_built_accepted : forall cfg u n o t i bytes,
   build_deactivate i = Some bytes ->
@@ -87,7 +115,8 @@ Theorem C08_deactivate_built_accepted : forall cfg u n o t i bytes,
   t 0%Z (until_of cfg 0 0) = true ->
   exists p,
     parse_operation cfg u n o t bytes false = Some p /\
-    p_type p = "deactivate" /\ p_suffix p = di_suffix i /\ p_reveal p = di_reveal i /\ p_delta p = None.
+    p_type p = "deactivate" /\ p_suffix p = di_suffix i /\ p_reveal p = di_reveal i /\ p_delta p = None /\
+    parse_signed_deactivate cfg (p_signed p) = Some {| sx_suffix := di_suffix i; sx_key := Some (di_key i); sx_from := 0; sx_until := 0 |}.
 Proof. exact deactivate_built_accepted. Qed.
 Print Assumptions C08_deactivate_built_accepted.
 
@@ -106,14 +135,74 @@ Theorem C08_recover_built_accepted : forall cfg u n o t i bytes d dh,
   t 0%Z (until_of cfg 0 0) = true ->
   wfnum (ri_origin i) -> (forall o', jequiv (ri_origin i) o' -> o o' = true) ->
   Forall is_obj (ri_patches i) -> Forall wfnum (ri_patches i) ->
-  (forall p p', In p (ri_patches i) -> jequiv p p' -> patch_enabled cfg p' = true /\ validate_patch u n p' = true) ->
+  patches_valid cfg u n (ri_patches i) ->
   exists p d',
     parse_operation cfg u n o t bytes false = Some p /\
     p_type p = "recover" /\ p_suffix p = ri_suffix i /\ p_reveal p = ri_reveal i /\
     p_delta p = Some d' /\ d_update_c d' = ri_update_c i /\ Forall2 jequiv (ri_patches i) (d_patches d') /\
-    jequiv (ri_origin i) (p_origin p).
-Proof. exact recover_built_accepted. Qed.
+    jequiv (ri_origin i) (p_origin p) /\
+    parse_signed_recover cfg (p_signed p) = Some {| sr_delta_hash := dh; sr_key := Some (ri_key i); sr_recovery_c := ri_recovery_c i;
+                                                    sr_origin := p_origin p; sr_from := 0; sr_until := 0 |}.
+Proof. exact recover_built_accepted_simple. Qed.
 Print Assumptions C08_recover_built_accepted.
+
+(* applying a built deactivate request to a state that has a document: deactivated, empty
+   document, no commitments *)
+Theorem C08_deactivate_built_applies : forall cfg u n i bytes rm doc t num ver canon equiv,
+  build_deactivate i = Some bytes ->
+  (Z.of_nat (String.length bytes) <= P_MaxOperationSize cfg)%Z ->
+  hash_rule cfg (di_reveal i) -> key_matches_reveal (Some (di_key i)) (di_reveal i) = true ->
+  In (di_alg i) (P_SignatureAlgorithms cfg) ->
+  jwk_valid (di_key i) = true -> In (k_crv (di_key i)) (P_KeyAlgorithms cfg) -> nonce_rule cfg (k_nonce (di_key i)) ->
+  rm_doc rm = Some doc ->
+  exists rm',
+    apply_bytes cfg u n TDeactivate bytes true t num ver canon equiv rm = Some rm' /\
+    rm_deactivated rm' = true /\ rm_doc rm' = Some [] /\ rm_update_c rm' = "" /\ rm_recovery_c rm' = "" /\
+    rm_origin rm' = rm_origin rm /\ rm_created rm' = rm_created rm /\ rm_updated rm' = t.
+Proof. exact deactivate_built_applies. Qed.
+Print Assumptions C08_deactivate_built_applies.
+
+(* applying a built recover request: both requested commitments, the requested anchor origin, and
+   the document the composer makes of the requested patches from the empty document *)
+Theorem C08_recover_built_applies : forall cfg u n i bytes d dh rm doc t num ver canon equiv,
+  build_recover i = Some (bytes, d, dh) ->
+  In (ri_code i) (algs cfg) ->
+  (Z.of_nat (String.length bytes) <= P_MaxOperationSize cfg)%Z ->
+  hash_rule cfg (ri_reveal i) -> key_matches_reveal (Some (ri_key i)) (ri_reveal i) = true ->
+  (Z.of_nat (String.length (ri_update_c i)) <= P_MaxOperationHashLength cfg)%Z -> mh_code (ri_update_c i) = Some (ri_code i) ->
+  (Z.of_nat (String.length (ri_recovery_c i)) <= P_MaxOperationHashLength cfg)%Z -> mh_code (ri_recovery_c i) = Some (ri_code i) ->
+  ri_update_c i <> ri_recovery_c i ->
+  (Z.of_nat (String.length dh) <= P_MaxOperationHashLength cfg)%Z ->
+  (forall c, jcs (img_delta d) = Some c -> (Z.of_nat (String.length c) <= P_MaxDeltaSize cfg)%Z) ->
+  In (ri_alg i) (P_SignatureAlgorithms cfg) ->
+  In (k_crv (ri_key i)) (P_KeyAlgorithms cfg) -> nonce_rule cfg (k_nonce (ri_key i)) ->
+  wfnum (ri_origin i) ->
+  Forall is_obj (ri_patches i) -> Forall wfnum (ri_patches i) ->
+  patches_valid cfg u n (ri_patches i) ->
+  rm_doc rm = Some doc ->
+  exists rm' ps',
+    apply_bytes cfg u n TRecover bytes true t num ver canon equiv rm = Some rm' /\
+    Forall2 jequiv (ri_patches i) ps' /\
+    rm_update_c rm' = ri_update_c i /\ rm_recovery_c rm' = ri_recovery_c i /\ rm_deactivated rm' = false /\
+    jequiv (ri_origin i) (rm_origin rm') /\ rm_created rm' = rm_created rm /\ rm_updated rm' = t /\
+    rm_doc rm' = Some (match apply_patches [] ps' with Some doc' => doc' | None => [] end).
+Proof. exact recover_built_applies. Qed.
+Print Assumptions C08_recover_built_applies.
+
+(* every run of built updates, of any length, applied in order: none is refused, the document is
+   the fold of the requested patch lists over the current document, the update commitment is the
+   one requested last; recovery commitment, anchor origin and creation time never move *)
+Theorem C08_updates_built_apply : forall cfg u n us rm doc,
+  Forall (update_ok cfg u n) us -> rm_doc rm = Some doc ->
+  exists pss,
+    Forall2 (fun a ps' => Forall2 jequiv (ui_patches (au_info a)) ps') us pss /\
+    let rm' := fold_left (apply_update_step cfg u n) us rm in
+    rm_doc rm' = Some (fold_left doc_step pss doc) /\
+    rm_update_c rm' = last_commitment us (rm_update_c rm) /\
+    rm_recovery_c rm' = rm_recovery_c rm /\ rm_origin rm' = rm_origin rm /\ rm_created rm' = rm_created rm /\
+    (us <> [] -> rm_deactivated rm' = false).
+Proof. exact updates_built_apply. Qed.
+Print Assumptions C08_updates_built_apply.
 
 (* a reveal value computed from a key validates against that key (what builders rely on when
    they derive the reveal value from the signer's key and the operation commitment's algorithm) *)
